@@ -16,4 +16,4 @@ Task: produce {n} different, independent changes to the xDSL source, each of whi
  - {wt}/seeds/<n>/patch.diff  (unified diff against the worktree's HEAD, produced with `git diff` so that `git apply` works from the repository root),
  - {wt}/seeds/<n>/demo.py (a small standalone program that exits non-zero / fails an assertion WITH the change applied and exits 0 WITHOUT it; `python demo.py <repo_root>` must insert <repo_root> at sys.path[0]),
  - {wt}/seeds/<n>/meta.json {{"property": "{pid}", "summary": ..., "needs_to_manifest": ..., "tests_run": "<command and result>"}}.
-Work on one change at a time: apply it, run the test suite, run the demo, save the files, then `git checkout -- .` (keeping the untracked seeds/ directory) before the next. At the end the worktree must be clean except for seeds/. Report the summaries.""")
+Never use `git stash` (the stash is shared between worktrees; use `git diff > file` and `git apply -R file` instead). Work on one change at a time: apply it, run the test suite, run the demo, save the files, then `git checkout -- .` (keeping the untracked seeds/ directory) before the next. At the end the worktree must be clean except for seeds/. Report the summaries.""")
